@@ -38,7 +38,8 @@ func init() {
 			"flaky = endorsements downloaded from a bucket whose answer per object follows a script (good/error/garbage/empty/other build), each call judged by the answer its own download got. " +
 			"Fourth-round families (round4.go): kept = the caller keeps its attestation values, the reports of one machine share one certificate-chain message (also read by several goroutines), attestations are validated again after failed downloads, the closure is reached through go-sev-guest's certificate-table options (validate.SnpAttestation), directly with the table entry, and through SevValidate; each call is compared with a fresh copy of the attestation as its owner built it, and the owner's attestations must be unchanged afterwards (caller-attestation-modified-by-validation); " +
 			"inflight = 1..3 validations (SevValidate with and without TestonlyForceGCS, closures, closures behind go-sev-guest) are parked inside their download by the bucket double while complete calls of 8 other configurations (TestonlyForceGCS set/unset, endorsement carried with and without a getter, in the options, downloaded) run, then released in a PRNG-chosen, also non-LIFO, order with complete calls in between and after (overlap arranged by channels, not by the scheduler); " +
-			"families = validators for different firmware families (and the GCE family through both entry points) created over one *verify.Options, some between two phases of calls, plus a sibling options value made by struct copy with an expired clock, against a bucket whose two folders publish different things per measurement; each validator is compared with itself alone over an options value of its own",
+			"families = validators for different firmware families (and the GCE family through both entry points) created over one *verify.Options, some between two phases of calls, plus a sibling options value made by struct copy with an expired clock, against a bucket whose two folders publish different things per measurement; each validator is compared with itself alone over an options value of its own. " +
+			"Fifth-round family (round5.go): chain = a three-level PKI minted per history (root -> intermediate -> signing key, keys certified by the root directly, a second intermediate, an attacker's chain; trust anchors root / root+intermediate / intermediate / root+other intermediate) and endorsements that differ in what they deliver beside the measurements (signer certificate present or not, ca_bundle none / root+intermediate / intermediate / root / other intermediate / attacker's / garbage, payload rewritten after signing); one validator (closure, pair, closure over a struct copy of the options, behind go-sev-guest, SevValidate) gets the incomplete ones first, then each complete one directly followed by every incomplete one, then all concurrently and successively; each call is compared with the same call alone on a fresh validator (evaluated before the process was handed the certificates another endorsement delivers), and the content of the caller's pool of trust anchors must be unchanged",
 		Assumptions: []string{"interleavings are whatever the Go scheduler produces; the race detector needs only two unordered accesses, the behavioural oracle needs the bad interleaving",
 			"validators are created before the goroutines start (C09 quantifies over invocations, not creation); the families histories also create validators between two phases of calls, while nothing is running",
 			"TestonlyForceGCS: the property does not say what the flag does to a carried endorsement, so a call with the flag is only compared with the same call alone"},
